@@ -124,6 +124,12 @@ func (r *Reader) validateMimetype(zr *zip.Reader) error {
 func (r *Reader) loadChapters(zr *zip.Reader) error {
 	r.chapters = make([]*Chapter, 0, len(r.pkg.Spine))
 
+	// A spine must not reference the same resource more than once (EPUB 3, 3.4.13),
+	// but an <itemref idref="a"/> costs 20 bytes and every one of them was read,
+	// kept and parsed as a chapter of its own: 300 of them over one 2 MB chapter
+	// (a 3 KB file) made Text() return 629 MB and took 3 GiB; 5000 take 10 GiB.
+	loaded := make(map[string]bool)
+
 	for i, spineItem := range r.pkg.Spine {
 		// Look up in manifest
 		item, ok := r.pkg.Manifest[spineItem.IDRef]
@@ -133,6 +139,10 @@ func (r *Reader) loadChapters(zr *zip.Reader) error {
 
 		// Resolve href relative to OPF location
 		href := r.resolveHref(item.Href)
+		if loaded[href] {
+			continue // already a chapter
+		}
+		loaded[href] = true
 
 		// Read the content file
 		content, err := r.readFile(zr, href)
